@@ -61,7 +61,7 @@ type Body struct {
 }
 
 func NewBody(rec *Recorder, kids []*gen.SNode, data []*gen.DNode, id string) *Body {
-	return &Body{Rec: rec, Kids: kids, Data: data, Id: id}
+	return &Body{Rec: rec, Kids: kids, Data: data, Id: id, ListSep: gen.ListSep}
 }
 
 func (b *Body) index(name string) int {
